@@ -362,6 +362,35 @@ func c06FamMisc(r *Run, full bool) []c06m {
 		out = append(out, c06m{"op": "query", "g": "g", "q": c06a(q)})
 		r.Count("fam:misc")
 	}
+	// rows WITHOUT a current element (what a *Null move from a vertex emits when it finds nothing),
+	// marked, selected, rendered, aggregated, filtered on the mark: every consumer of a nil element
+	for _, nm := range []c06m{{"outNull": c06a{}}, {"outNull": c06a{"nolabel"}}, {"inNull": c06a{"nolabel"}},
+		{"outENull": c06a{"nolabel"}}, {"inENull": c06a{"nolabel"}}, {"outENull": c06a{}}, {"inENull": c06a{}}} {
+		for _, tail := range [][]c06m{
+			{{"as": "b"}, {"select": c06m{"marks": c06a{"a", "b"}}}},
+			{{"as": "b"}, {"select": c06m{"marks": c06a{"b"}}}},
+			{{"as": "b"}, {"select": c06m{"marks": c06a{"b", "a"}}}, {"count": ""}},
+			{{"as": "b"}, {"out": c06a{}}, {"select": c06m{"marks": c06a{"a", "b"}}}},
+			{{"as": "b"}, {"has": c06m{"condition": c06m{"key": "$b.age", "value": 1, "condition": "GT"}}}},
+			{{"as": "b"}, {"render": c06m{"x": "$b.name", "y": "$a._gid", "z": "name"}}},
+			{{"as": "b"}, {"path": c06a{}}},
+			{{"as": "b"}, {"distinct": c06a{"$b._gid"}}},
+			{{"render": c06m{"n": "name"}}}, {{"fields": c06a{"name"}}}, {{"unwind": "tags"}}, {{"distinct": c06a{"name"}}},
+			{{"aggregate": c06m{"aggregations": c06a{c06m{"name": "t", "term": c06m{"field": "_label"}}}}}},
+			{{"hasKey": c06a{"name"}}}, {{"hasId": c06a{""}}}, {{"hasLabel": c06a{""}}},
+		} {
+			q := append(c06a{c06m{"v": c06a{}}, c06m{"as": "a"}, nm}, func() c06a {
+				o := c06a{}
+				for _, t := range tail {
+					o = append(o, t)
+				}
+				return o
+			}()...)
+			c06CheckStmts(q)
+			out = append(out, c06m{"op": "query", "g": "g", "q": q})
+			r.Count("fam:nullmark")
+		}
+	}
 	// graphs that do not exist
 	for _, g := range []string{"nope", "", "g__schema__", "a/b"} {
 		out = append(out, c06m{"op": "query", "g": g, "q": c06a{c06m{"v": c06a{}}}})
